@@ -43,7 +43,8 @@ def config(draw, max_levels=1, max_mws=4, posonly=True, nonunique=True, nonreord
     res_names = [n for n in pool if roles[n] == 'res']
     prov_names = [n for n in pool if roles[n] == 'prov']
     # where resources live: outermost level, route, inner levels; a name may also be shared with L0
-    levels = [{'res': [], 'mws': [], 'prefix': draw(st.sampled_from(['/s', '/s/', '/t/u']))} for _ in range(nlevels)]
+    levels = [{'res': [], 'mws': [], 'prefix': draw(st.sampled_from(['/s', '/s/', '/t/u', '/s', '/v/<p%d>' % k, '/<p%d>/' % k]))}
+              for k in range(nlevels)]
     route = {'res': [], 'mws': [], 'url': url}
     for n in res_names:
         where = draw(st.sampled_from(['L0', 'L0', 'R', 'inner', 'L0+R', 'L0+inner']))
@@ -109,7 +110,9 @@ def config(draw, max_levels=1, max_mws=4, posonly=True, nonunique=True, nonreord
     all_res = set(route['res'])
     for lv in levels:
         all_res |= set(lv['res'])
-    av = I.availability(stack, url, all_res)
+    # URL bindings carried by embedding prefixes are offered to every function of the route as well
+    url_all = list(url) + [n for lv in levels[1:] for n in I.prefix_names(lv)]
+    av = I.availability(stack, url_all, all_res)
     by_id = {}
     for i, lv in enumerate(levels):
         for j, mw in enumerate(lv['mws']):
